@@ -18,6 +18,7 @@ callback of the step = the post-integration / pre-resolution state).  Offline or
 """
 import json, math, random
 from vf import core
+from vf.num import gt, nmax as max, nmin as min
 
 PROPERTY = "C13"
 EPS = 2.0 ** -52
@@ -316,18 +317,18 @@ def run_case(case):
                     if any(x != x for x in surv):
                         add('merge:nan-after-merge', '%s: masses %r %r: merged particle %r' % (desc, b1[7], b2[7], surv))
                     sc = max(abs(b1[7]), abs(b2[7]), 1e-300)
-                    if abs(surv[7] - bm) > 8 * EPS * sc:
+                    if gt(abs(surv[7] - bm), 8 * EPS * sc):
                         add('merge:mass-not-conserved', '%s: %r + %r -> %r' % (desc, b1[7], b2[7], surv[7]))
                     for k in range(3):
                         mom_b = b1[7] * b1[3 + k] + b2[7] * b2[3 + k]
                         mom_a = surv[7] * surv[3 + k]
                         msc = abs(b1[7] * b1[3 + k]) + abs(b2[7] * b2[3 + k]) + 1e-300
-                        if abs(mom_a - mom_b) > 64 * EPS * msc:
+                        if gt(abs(mom_a - mom_b), 64 * EPS * msc):
                             add('merge:momentum-not-conserved', '%s: component %d: %r -> %r' % (desc, k, mom_b, mom_a))
                         com_b = b1[7] * b1[k] + b2[7] * b2[k]
                         com_a = surv[7] * surv[k]
                         csc = abs(b1[7] * b1[k]) + abs(b2[7] * b2[k]) + 1e-300
-                        if abs(com_a - com_b) > 64 * EPS * csc:
+                        if gt(abs(com_a - com_b), 64 * EPS * csc):
                             add('merge:centre-of-mass-not-conserved', '%s: component %d: %r -> %r' % (desc, k, com_b, com_a))
                     rem = e['h2'] if e['out'] == 2 else e['h1']
                     removed.append(rem)
